@@ -18,7 +18,8 @@ pub struct C12;
 pub enum Case {
     /// explicit face list over nv vertices (exhaustive enumeration, fuzzing, replay)
     Faces { nv: u8, faces: Vec<[u32; 3]> },
-    Wild { spec: MeshSpec },
+    /// exp2: the whole mesh is rescaled by 2^exp2 (exact)
+    Wild { spec: MeshSpec, #[serde(default)] exp2: i32 },
     Voxels { cells: Vec<(i32, i32, i32)> },
     /// directed simple paths/cycles given by their lengths, labels drawn from a permutation, pairs shuffled
     Chains { parts: Vec<(u8, bool)>, seed: u64, extra: Vec<(u8, u8)> },
@@ -32,7 +33,7 @@ impl Property for C12 {
     type Case = Case;
     const ID: &'static str = "C12";
     fn rule() -> &'static str {
-        "enumerated phase (complete): every set of at most 4 oriented triangles over 5 labelled vertices and at most 3 over 6 vertices (both windings of every vertex triple); generated phase: meshes from the harness generators (grids with random diagonals, L-shapes, tubes, fans, boxes, octahedra, icospheres, tori, prisms) with holes, per-face flips, second components, vertex-only (bow-tie) contacts, shuffled numbering; voxel sets (blobs, diagonal-only contacts, negative coordinates); index-pair lists that are shuffled disjoint unions of directed paths and cycles plus arbitrary pairs; the library's box and cylinder generators. Every case runs in a killable worker (10 s deadline, normal cost < 1 ms) and every hash-map-dependent result is recomputed 8 times and compared as canonical sets. Oracle: harness edge multisets and union-find. Non-trivial: at least two faces sharing an edge and at least one boundary edge (meshes); at least two clusters/chains (voxels/pairs). Distinct = distinct canonical JSON."
+        "enumerated phase (complete): every set of at most 4 oriented triangles over 5 labelled vertices and at most 3 over 6 vertices (both windings of every vertex triple); generated phase: meshes from the harness generators (grids with random diagonals, L-shapes, tubes, fans, boxes, octahedra, icospheres, tori, prisms) with holes, per-face flips, second components, vertex-only (bow-tie) contacts, shuffled numbering, a third of them rescaled as a whole by 2^-50..2^30; voxel sets (blobs, diagonal-only contacts, negative coordinates); index-pair lists that are shuffled disjoint unions of directed paths and cycles plus arbitrary pairs; the library's box and cylinder generators. Every case runs in a killable worker (10 s deadline, normal cost < 1 ms) and every hash-map-dependent result is recomputed 8 times and compared as canonical sets. Oracle: harness edge multisets and union-find. Non-trivial: at least two faces sharing an edge and at least one boundary edge (meshes); at least two clusters/chains (voxels/pairs). Distinct = distinct canonical JSON."
     }
     fn cases(t: Tier) -> u32 {
         t.pick(150_000, 600_000)
@@ -44,7 +45,7 @@ impl Property for C12 {
         true
     }
     fn expected_labels() -> Vec<&'static str> {
-        vec!["faces", "wild", "voxels", "chains", "box", "cylinder", "bowtie", "flipped", "multi_component", "closed", "holes_or_open", "nonmanifold_rejected", "hash_order_repeats"]
+        vec!["faces", "wild", "voxels", "chains", "box", "cylinder", "bowtie", "flipped", "multi_component", "closed", "holes_or_open", "nonmanifold_rejected", "hash_order_repeats", "unit_below_1e-6", "unit_above_1e3"]
     }
     fn enumerated(t: Tier) -> Vec<Case> {
         let mut out = vec![];
@@ -101,7 +102,7 @@ impl Property for C12 {
         ];
         let chains = (prop::collection::vec((1u8..8, any::<bool>()), 1..6), any::<u64>(), prop_oneof![3 => Just(vec![]), 1 => prop::collection::vec((0u8..12, 0u8..12), 1..5)]).prop_map(|(parts, seed, extra)| Case::Chains { parts, seed, extra });
         prop_oneof![
-            6 => wild_mesh(gmax).prop_map(|spec| Case::Wild { spec }),
+            6 => (wild_mesh(gmax), prop_oneof![2 => Just(0i32), 1 => -50i32..=30]).prop_map(|(spec, exp2)| Case::Wild { spec, exp2 }),
             2 => (3u8..9, prop::collection::vec((0u32..9, 0u32..9, 0u32..9), 1..10)).prop_map(|(nv, f)| {
                 let faces = f.into_iter().map(|(a, b, c)| [a % nv as u32, b % nv as u32, c % nv as u32]).filter(|t| t[0] != t[1] && t[1] != t[2] && t[0] != t[2]).collect::<Vec<_>>();
                 Case::Faces { nv, faces }
@@ -124,10 +125,16 @@ impl Property for C12 {
                 cx.label("faces");
                 mesh_checks(cx, v, faces.clone())
             }
-            Case::Wild { spec } => {
-                let Some(b) = spec.build() else { return Verdict::Discard("empty mesh") };
+            Case::Wild { spec, exp2 } => {
+                let Some(mut b) = spec.build() else { return Verdict::Discard("empty mesh") };
+                let u = 2f64.powi(*exp2);
+                for p in b.v.iter_mut() {
+                    *p = Point3::from(p.coords * u);
+                }
                 let mut cx = Ctx::new();
                 cx.label("wild");
+                cx.label_if(*exp2 < -20, "unit_below_1e-6");
+                cx.label_if(*exp2 > 10, "unit_above_1e3");
                 mesh_checks(cx, b.v, b.f)
             }
             Case::Voxels { cells } => voxels(cells),
@@ -221,7 +228,7 @@ fn mesh_checks(mut cx: Ctx, v: Vec<Point3>, f: Vec<[u32; 3]>) -> Verdict {
                 ensure!(lengths.len() == edges.len(), "C12/calc_edges/lengths_len", "{} lengths for {} edges", lengths.len(), edges.len());
                 for (i, e) in edges.iter().enumerate() {
                     let l = (v[e[0] as usize] - v[e[1] as usize]).norm();
-                    ensure!((lengths[i] - l).abs() <= 1e-12 * (1.0 + l), "C12/calc_edges/edge_length", "edge {i} length {:e}, vertices are {l:e} apart", lengths[i]);
+                    ensure!((lengths[i] - l).abs() <= 1e-12 * l, "C12/calc_edges/edge_length", "edge {i} length {:e}, vertices are {l:e} apart", lengths[i]);
                 }
                 ensure!(face_edges.len() == f.len(), "C12/calc_edges/face_edges_len", "{} face edge rows for {} faces", face_edges.len(), f.len());
                 for (fi, t) in f.iter().enumerate() {
